@@ -165,7 +165,7 @@ def judge_trace(ctx, trace, source, kd, totals):
     with open(trace) as f:
         n = sum(1 for _ in f)
     max_events = max(2000, n // (2 * lib.NCPU) + 1)
-    v = lib.judge(ctx, MODULE_T, cfg, trace, max_events=max_events, heap="3g")
+    v = lib.judge(ctx, MODULE_T, cfg, trace, max_events=max_events, heap="2g")
     for k in STAT_KEYS:
         totals[k] = totals.get(k, 0) + v.get(k, 0)
     ctx.stage("judge", source=source, events=v["events"], violations=len(v["violations"]), deviations=len(v["deviations"]),
